@@ -276,3 +276,38 @@ func VH_C19_config_change() {
 	vrt.Assert(db.alters == n, "re-run-with-the-new-configuration-issues-no-alter")
 	vrt.Reach("end")
 }
+
+// VH_C19_change_interrupted_then_reverted: configuration A applied cleanly, a run with configuration B
+// interrupted at any statement, then configuration A again (the operator reverts the change): after the last
+// run every table carries A's TTL and storage policy - a table the interrupted run already moved to B must
+// not be left there because the recorded marker still says A.
+func VH_C19_change_interrupted_then_reverted() {
+	vrt.Unwind(400)
+	a := vhConfig(false)
+	vrt.Assume(a.policy != "")
+	b := a
+	if vrt.Bool("retention-changes") {
+		b.drop = a.drop + 1
+	} else {
+		b.policy = "tiered_cold"
+	}
+	db := vhNewConn()
+	vrt.Assert(vhRun(db, a) == nil, "first-run-succeeds")
+	db.calls = 0
+	db.failAt = vrt.Len("fail-at-statement", 0, 45)
+	before := db.alters
+	_ = vhRun(db, b)
+	faulted := db.failed && db.alters > before // interrupted after it had altered at least one table
+	db.failAt, db.failed, db.afterFail = -1, false, 0
+	vrt.Assert(vhRun(db, a) == nil, "run-with-the-reverted-configuration-succeeds")
+	ref := vhNewConn()
+	vrt.Assert(vhRun(ref, a) == nil, "reference-run-succeeds")
+	if vrt.KnownFinding("C19-interrupted-change-then-revert", faulted) {
+		return
+	}
+	for _, t := range vhPolicyTables {
+		vrt.Assert(db.ttl[t] == ref.ttl[t], "table-ttl-is-the-reverted-configurations")
+		vrt.Assert(db.policy[t] == a.policy, "table-storage-policy-is-the-reverted-configurations")
+	}
+	vrt.Reach("end")
+}
